@@ -339,3 +339,243 @@ class C13(Check):
 
 
 CHECK = C13()
+
+
+# =========================================================================== transport part (stdio reader)
+from pyvc import envs as _E                      # noqa: E402
+from pyvc.core import PyRaise as _PyRaise         # noqa: E402
+from checks import stdio as ST                    # noqa: E402
+
+STDIO = ST.STDIO
+E2 = z3.Function("batch_docs", V.SeqVal, V.SeqVal)     # the valid members of a batch, in order (lock-step spec)
+
+
+class RouteMessage(Contract):
+    """_route_message: every message is handed to the main read stream; id-less ones are additionally offered to
+    the notification stream; nothing else is written; routing never raises for a live stream."""
+    key = f"{STDIO}::StdioClient._route_message"
+    prop = "C13"
+
+    def setup(self, I):
+        self.client = ST.make_client(I)
+        mid = I.fresh("mid")
+        I.assume(z3.Or(V.is_none(mid), V.is_int(mid), V.is_str(mid)))
+        self.mid = mid
+        cd = I.ctx.env_class(ST.MESSAGE)
+        self.msg = I.new_object(cd, {"id": mid, "__src__": I.fresh("src")})
+        return [self.client, self.msg], {}
+
+    def post(self, I, result):
+        parts = I.client_parts
+        w = Val.items(_E.gfield(I, parts["incoming_send"], "written"))
+        a = Val.items(_E.gfield(I, parts["incoming_send"], "attempted"))
+        n = Val.items(_E.gfield(I, parts["notify_send"], "written"))
+        I.oblige(self.name("offered_exactly_once_to_the_read_stream"),
+                 z3.And(z3.Length(a) == 1, a[0] == self.msg, z3.Or(z3.Length(w) == 0, w == a)))
+        I.oblige(self.name("only_notifications_reach_the_notification_stream"),
+                 z3.If(V.is_none(self.mid), z3.Or(z3.Length(n) == 0, n == z3.Unit(self.msg)), z3.Length(n) == 0))
+
+    def post_exc(self, I, e):
+        ok = e.cls_name in ("CancelledError", "ClosedResourceError")
+        I.oblige(self.name(f"raises_only_when_the_stream_is_closed_or_cancelled[{e.cls_name}]"), z3.BoolVal(ok))
+
+
+class RouteModular(Contract):
+    """call-site form: delivers msg (ghost `delivered` += [src(msg)]) or raises ClosedResourceError"""
+    key = f"{STDIO}::StdioClient._route_message"
+
+    def apply(self, I, args, kwargs, node):
+        msg = args[1]
+        if I.choose_n(2, "route_outcome") == 1:
+            raise _PyRaise(I.make_exc("ClosedResourceError", V.VStr("")), "ClosedResourceError")
+        h = I.ghost["holder"]
+        src, _ = I.get_field(msg, "__src__")
+        d = Val.items(_E.gfield(I, h, "delivered"))
+        I.set_attr(h, "delivered", V.VList(z3.simplify(z3.Concat(d, z3.Unit(src)))))
+        _E.checkpoint_nofire(I)
+        return V.NONE
+
+
+class TransportHolder(_E.EnvClass):
+    name = "TransportGhost"
+    methods = {}
+
+
+T_HOLDER = TransportHolder()
+
+
+class ProcessMessageData(Contract, VersionModes):
+    """_process_message_data(data) for the version current AT THAT CALL (so version changes mid-connection are
+    covered): a batch at a version without batching is answered with exactly one -32600 error on stdin and
+    nothing is delivered; otherwise every valid member is delivered in order and an invalid one is dropped alone;
+    a single message is delivered iff valid.  Never raises."""
+    key = f"{STDIO}::StdioClient._process_message_data"
+    prop = "C13"
+
+    def __init__(self, mode, shape):
+        self.mode, self.shape = mode, shape        # shape: batch | single
+
+    def name(self, clause):
+        return f"C13._process_message_data.{clause}[{self.mode},{self.shape}]"
+
+    def setup(self, I):
+        I.c13t = self
+        proc, out, inn, _ = ST.make_process(I)
+        self.stdin = inn
+        self.client = ST.make_client(I, process=proc)
+        v = self.version(I)
+        bp = I.client_parts["bp"]
+        # class invariant of the processor (proved above): batching_enabled == older-than-cutoff(version)
+        I.set_attr(bp, "protocol_version", v, record=False)
+        I.set_attr(bp, "batching_enabled", V.VBool(self.expect), record=False)
+        self.holder = _E.new_env_object(I, T_HOLDER, delivered=V.VList([]))
+        I.ghost["holder"] = self.holder
+        data = I.fresh("data")
+        I.assume(z3.Or(V.is_none(data), V.is_bool(data), V.is_int(data), V.is_real(data), V.is_str(data),
+                       V.is_list(data), V.is_dict(data)))
+        I.assume(V.is_list(data) if self.shape == "batch" else z3.Not(V.is_list(data)))
+        self.data = data
+        I.assume(E2(z3.Empty(V.SeqVal)) == z3.Empty(V.SeqVal))
+        return [self.client, data], {}
+
+    def doc(self, x):
+        """what one item contributes: itself iff it is a dict that parses as a message"""
+        return z3.If(z3.And(V.is_dict(x), ST.valid_message(x)), z3.Unit(x), z3.Empty(V.SeqVal))
+
+    def post(self, I, result):
+        delivered = Val.items(_E.gfield(I, self.holder, "delivered"))
+        writes = Val.items(_E.gfield(I, self.stdin, "writes"))
+        watch = {"version": self.v, "data": self.data}
+        if self.shape == "single":
+            I.oblige(self.name("single_message_delivered_iff_valid"),
+                     z3.Or(delivered == self.doc(self.data),
+                           z3.And(z3.BoolVal(bool(I.ghost.get("route_failed"))), z3.Length(delivered) == 0)), watch=watch)
+            I.oblige(self.name("nothing_written_back_for_a_single_message"), z3.Length(writes) == 0, watch=watch)
+            return
+        items = Val.items(self.data)
+        accept = self.expect
+        I.oblige(self.name("rejected_batch_delivers_none_of_its_members"),
+                 z3.Implies(z3.Not(accept), z3.Length(delivered) == 0), watch=watch)
+        err_text = ST.json_text
+        I.oblige(self.name("rejected_batch_is_answered_with_at_most_one_write"),
+                 z3.Implies(z3.Not(accept), z3.Length(writes) <= 1), watch=watch)
+        I.oblige(self.name("accepted_batch_writes_nothing_back"), z3.Implies(accept, z3.Length(writes) == 0), watch=watch)
+        if not I.ghost.get("route_failed"):
+            I.oblige(self.name("accepted_batch_delivers_every_valid_member_in_order"),
+                     z3.Implies(accept, delivered == E2(items)), watch=watch)
+
+    def post_exc(self, I, e):
+        I.oblige(self.name(f"never_raises[{e.cls_name}]"), z3.BoolVal(e.cls_name == "CancelledError"))
+
+
+def batch_loop_inv(I, phase):
+    c = I.c13t
+    name = "C13._process_message_data.batch_loop"
+    delivered = Val.items(_E.gfield(I, c.holder, "delivered"))
+    writes = Val.items(_E.gfield(I, c.stdin, "writes"))
+    items = Val.items(c.data)
+    i = Val.i(I.frame.vars["__i0"])
+    if phase == "head":
+        x = items[i]
+        done = z3.Extract(items, 0, i)
+        I.assume(z3.Implies(i < z3.Length(items),
+                            z3.And(E2(z3.Concat(done, z3.Unit(x))) == z3.Concat(E2(done), c.doc(x)),
+                                   z3.Extract(items, 0, i + 1) == z3.Concat(done, z3.Unit(x)))))
+        I.assume(z3.Extract(items, 0, z3.Length(items)) == items)
+        # members of a parsed JSON document are themselves serialisable (codec round trip, C17)
+        I.assume(z3.Implies(i < z3.Length(items), ST.json_serialisable(x)))
+    cl = [(f"{name}.nothing_written_back", z3.Length(writes) == 0)]
+    if not I.ghost.get("route_failed"):
+        cl.append((f"{name}.delivered_are_the_valid_members_so_far_in_order", delivered == E2(z3.Extract(items, 0, i))))
+    return cl
+
+
+class RouteModularTracking(RouteModular):
+    def apply(self, I, args, kwargs, node):
+        try:
+            return super().apply(I, args, kwargs, node)
+        except _PyRaise:
+            I.ghost["route_failed"] = True
+            raise
+
+
+class SendErrorResponse(Contract):
+    """_send_error_response writes exactly one NDJSON line carrying the error (or nothing if the pipe fails);
+    never raises."""
+    key = f"{STDIO}::StdioClient._send_error_response"
+    prop = "C13"
+
+    def setup(self, I):
+        proc, out, inn, _ = ST.make_process(I)
+        self.stdin = inn
+        self.client = ST.make_client(I, process=proc)
+        err = I.fresh("error_response")
+        I.assume(z3.And(V.is_dict(err), Val.dsize(err) >= 0))
+        self.err = err
+        return [self.client, err], {}
+
+    def post(self, I, result):
+        writes = Val.items(_E.gfield(I, self.stdin, "writes"))
+        line = z3.Concat(ST.json_text(self.err), ST.NL)
+        I.oblige(self.name("writes_at_most_the_one_error_line"),
+                 z3.Or(z3.Length(writes) == 0, writes == z3.Unit(V.VBytes(P.utf8_enc(line)))))
+
+    def post_exc(self, I, e):
+        I.oblige(self.name(f"never_raises[{e.cls_name}]"), z3.BoolVal(e.cls_name == "CancelledError"))
+
+
+_old_contracts = C13.contracts
+_old_canaries = C13.canaries
+
+
+def _contracts(self):
+    cs = _old_contracts(self)
+    cs += [RouteMessage(), SendErrorResponse()]
+    for mode in ("dated", "none"):
+        for shape in ("batch", "single"):
+            cs.append(ProcessMessageData(mode, shape))
+    return cs
+
+
+def _install(self, ctx):
+    ST.install(ctx)
+    ctx.env_class(T_HOLDER)
+
+
+def _modular(self):
+    return {f"{ST.FASTJSON}::dumps": ST.DumpsModular(), f"{ST.JSONRPC}::parse_message": ST.ParseMessageModular(),
+            f"{STDIO}::StdioClient._route_message": RouteModularTracking()}
+
+
+def _loop_invariants(self):
+    return {(f"{STDIO}::StdioClient._process_message_data", 0): batch_loop_inv}
+
+
+def _canaries(self):
+    return _old_canaries(self) + [
+        Canary("members routed before the batch is rejected", STDIO,
+               "        if not self.batch_processor.can_process_batch(data):\n", "        if False:\n", "rejected_batch"),
+        Canary("first invalid member aborts the rest of the batch", STDIO,
+               '                    except Exception as exc:\n                        logger.error("Error processing batch item: %s", exc)\n',
+               '                    except Exception as exc:\n                        logger.error("Error processing batch item: %s", exc)\n                        break\n',
+               "every_valid_member"),
+        Canary("rejection error written twice", STDIO,
+               "            await self._send_error_response(error_response)\n            return\n",
+               "            await self._send_error_response(error_response)\n            await self._send_error_response(error_response)\n            return\n",
+               "at_most_one_write"),
+    ]
+
+
+C13.contracts = _contracts
+C13.install = _install
+C13.modular = _modular
+C13.loop_invariants = _loop_invariants
+C13.canaries = _canaries
+C13.title = ("decision function, BatchProcessor class invariant and version ordering proved for all 10^8 dddd-dd-dd "
+             "strings plus None/empty; stdio transport: reject-with-one-error / deliver-valid-members-in-order proved "
+             "for every batch and the version current at the call")
+C13.trusted = C13.trusted + [
+    "parse_message through its contract: a fresh message determined by the data, or ValueError/ValidationError "
+    "(valid_message is uninterpreted); fast_json.dumps through its contract (C17)",
+    "_route_message is verified on its own and used inside _process_message_data through its call-site contract"]
+CHECK = C13()
